@@ -24,13 +24,17 @@ Shape of the results, for each validator `f`:
 
 DISCREPANCIES between code and documentation found while proving (concrete inputs; all reproduced
 with the real package):
- D1  `PulseSequence([[X]], H_n, dt)` (sublists without coefficients) raises `IndexError`, not
-     `TypeError`/`ValueError` (`args[0]` on an empty list).
- D2  non-square operators are ACCEPTED when the stacked array happens to be "square": four
-     `ndarray`s of shape `(1, 4)` (squeezed to `(4,)`, stacked `(4, 4)`) together with a `4 × 4`
-     noise operator; two 1-d operators of length 2; `(2, 2, 1)` arrays (harmless).
- D3  valid `1 × 1` `ndarray` operators are squeezed to 0-d: `H_c` with one and `H_n` with two of
-     them is REJECTED (`ValueError`, "not same dimension"); mixed with a `1 × 1` Qobj: rejected.
+ D1  (REPAIRED) `PulseSequence([[X]], H_n, dt)` (sublists without coefficients) raised
+     `IndexError`; now `TypeError`.
+ D2  (REPAIRED by the check `parsed_opers.ndim != 3` in `_parse_Hamiltonian`) non-square operators
+     were accepted when the stacked array happened to be "square": four `ndarray`s of shape
+     `(1, 4)` with a `4 × 4` noise operator; two 1-d operators of length 2.  Now `ValueError`.
+     `util.parse_operators` itself is unchanged, so `Basis.__new__` still needs `OperRegular`.
+ D3  (REPAIRED, same check) `1 × 1` `ndarray` operators are squeezed to 0-d; they used to be
+     accepted or rejected depending on their number, now they are always rejected.  The documented
+     domain reads an `ndarray` operator up to axes of length one (`operDim`), as the parser
+     squeezes on purpose: `(2, 2, 1)` is a `2 × 2` matrix (accepted), `(1, 1)` is a scalar
+     (rejected; a `1 × 1` Qobj is accepted).
  D4  sublists with more than three entries are accepted, the extra entries ignored.
  D5  `parse_spectrum` accepts 0-d spectra and stretches axes of length one (`np.broadcast_to`).
  D6a `Basis(b)` for an existing `Basis` instance `b` takes it over without re-checking it.
@@ -62,30 +66,39 @@ open FFVerif FFVerif.Model FFVerif.Model.Validate
 
 /-! ### `_parse_Hamiltonian` -/
 
-/-- A documented Hamiltonian argument is accepted: the operators are stacked to shape `(n, d, d)`
-and the identifiers (given or default) are stored sorted.  Hypothesis `HamRegular`: no sublist has
-more than three entries and no `ndarray` operator has an axis of length one (excludes D3). -/
+/-- A documented Hamiltonian argument is accepted — ALL inputs, no side condition: the operators
+are stacked to shape `(n, d, d)` and the identifiers (given or default) are stored sorted. -/
 theorem parse_hamiltonian_valid_never_rejected {H : HamSpec} {nDt : Nat} {pre : String}
-    (hv : ValidHam H nDt pre) (hr : HamRegular H) :
+    (hv : ValidHam H nDt pre) :
     ∃ d, hamDim H = some d ∧ parseHamiltonian H nDt pre =
       .ok ⟨[(hamItems H).length, d, d], Pulse.sortBy id (filledIds (hamItems H) pre)⟩ :=
-  parseHamiltonian_of_valid hv hr
+  parseHamiltonian_of_valid hv
 
 /-- `_parse_Hamiltonian` raises exactly on the arguments outside the documented domain
-(`ValidHam`), for `HamRegular` inputs (the hypothesis excludes D2, D3, D4). -/
+(`ValidHam`).  The only remaining hypothesis is `HamRegular` = "no sublist has more than three
+entries" (D4: further entries are silently ignored, so such an undocumented input is accepted).
+Since the check `parsed_opers.ndim != 3` was added, D2 and D3 are gone: stacks of row vectors,
+1-d operators and squeezed `1 × 1` arrays are rejected. -/
 theorem parse_hamiltonian_rejects_iff {H : HamSpec} {nDt : Nat} {pre : String} (hr : HamRegular H) :
     (∃ e, parseHamiltonian H nDt pre = .error e) ↔ ¬ ValidHam H nDt pre :=
-  rejects_iff_of (fun hv => let ⟨_, _, h⟩ := parseHamiltonian_of_valid hv hr; ⟨_, h⟩)
+  rejects_iff_of (fun hv => let ⟨_, _, h⟩ := parseHamiltonian_of_valid hv; ⟨_, h⟩)
     (fun _ h => valid_of_parseHamiltonian hr h)
 
-/-- Which exception: every rejection is explained by a catalogued corruption of the class raised
-(`TypeError`: not a list of lists, operator missing / not array-like, coefficients missing / not a
-sequence; `ValueError`: empty, operators not square 2-d of one dimension, duplicate identifiers,
-wrong number of coefficients; `IndexError`: no sublist has coefficients — D1). -/
+/-- Every rejected argument is outside the documented domain (all inputs). -/
+theorem parse_hamiltonian_rejected_invalid {H : HamSpec} {nDt : Nat} {pre : String} {e : Err}
+    (h : parseHamiltonian H nDt pre = .error e) : ¬ ValidHam H nDt pre := by
+  intro hv
+  obtain ⟨_, _, h'⟩ := parseHamiltonian_of_valid hv
+  rw [h'] at h; cases h
+
+/-- Which exception (all inputs): every rejection is explained by a catalogued corruption of the
+class raised (`TypeError`: not a list of lists, no sublist has coefficients, operator missing /
+not array-like, coefficients missing / not a sequence; `ValueError`: empty, operators not square
+matrices of one dimension, duplicate identifiers, wrong number of coefficients). -/
 theorem parse_hamiltonian_rejection_explained {H : HamSpec} {nDt : Nat} {pre : String} {e : Err}
-    (hr : HamRegular H) (h : parseHamiltonian H nDt pre = .error e) :
+    (h : parseHamiltonian H nDt pre = .error e) :
     ∃ k, HamViolates H nDt pre k ∧ k.cls = e :=
-  parseHamiltonian_error hr h
+  parseHamiltonian_error h
 
 /-- Every catalogued corruption leaves the documented domain. -/
 theorem parse_hamiltonian_violation_invalid {H : HamSpec} {nDt : Nat} {pre : String} {k : HamKind}
@@ -93,44 +106,51 @@ theorem parse_hamiltonian_violation_invalid {H : HamSpec} {nDt : Nat} {pre : Str
   not_valid_of_hamViolates h
 
 /-- If the argument is invalid and all corruptions present have class `e` (e.g. exactly one
-corruption), the exception raised is `e`. -/
+corruption), the exception raised is `e`.  (`HamRegular`: D4, see `parse_hamiltonian_rejects_iff`.) -/
 theorem parse_hamiltonian_class_of_corruption {H : HamSpec} {nDt : Nat} {pre : String} {e : Err}
     (hr : HamRegular H) (hnv : ¬ ValidHam H nDt pre)
     (hall : ∀ k, HamViolates H nDt pre k → k.cls = e) : parseHamiltonian H nDt pre = .error e := by
   obtain ⟨e', he'⟩ := (parse_hamiltonian_rejects_iff hr).mpr hnv
-  obtain ⟨k, hk, hc⟩ := parseHamiltonian_error hr he'
+  obtain ⟨k, hk, hc⟩ := parseHamiltonian_error he'
   rw [he', ← hc, hall k hk]
 
-/-- The exception is always a `TypeError` or a `ValueError` (after the repair of D1: sublists
-without coefficients used to surface as an `IndexError`). -/
+/-- The exception is always a `TypeError` or a `ValueError` (all inputs; after the repair of D1:
+sublists without coefficients used to surface as an `IndexError`). -/
 theorem parse_hamiltonian_error_class {H : HamSpec} {nDt : Nat} {pre : String} {e : Err}
-    (hr : HamRegular H) (h : parseHamiltonian H nDt pre = .error e) :
-    e = .typeError ∨ e = .valueError := by
-  obtain ⟨k, hk, hc⟩ := parseHamiltonian_error hr h
-  cases k <;> simp [HamKind.cls] at hc <;> (subst hc; simp)
+    (h : parseHamiltonian H nDt pre = .error e) :
+    e = .typeError ∨ e = .valueError :=
+  parseHamiltonian_error_cases h
 
 /-! ### `_parse_args` (the constructor `PulseSequence(H_c, H_n, dt, basis)`) -/
 
-/-- Documented constructor arguments are accepted; the new pulse has the sorted identifiers, the
-operators' dimension `d` and `len(dt)` segments.  (`ArgsRegular`: both Hamiltonians `HamRegular`.) -/
-theorem parse_args_valid_never_rejected {x : ArgsSpec} (hv : ValidArgs x) (hr : ArgsRegular x) :
+/-- Documented constructor arguments are accepted — ALL inputs, no side condition; the new pulse
+has the sorted identifiers, the operators' dimension `d` and `len(dt)` segments. -/
+theorem parse_args_valid_never_rejected {x : ArgsSpec} (hv : ValidArgs x) :
     ∃ d, hamDim x.Hc = some d ∧ parseArgs x = .ok
       ⟨Pulse.sortBy id (filledIds (hamItems x.Hc) "A"),
        Pulse.sortBy id (filledIds (hamItems x.Hn) "B"), d, (dtElems x.dt).length⟩ :=
-  parseArgs_of_valid hv hr
+  parseArgs_of_valid hv
 
 /-- The constructor raises exactly on the arguments outside the documented domain (`ValidArgs`:
 `dt` a sequence of real non-negative durations, both Hamiltonians valid with `len(dt)`
-coefficients per operator, equal dimensions, basis — if given — a `Basis` of `d × d` elements),
-for `ArgsRegular` inputs. -/
+coefficients per operator, equal dimensions, basis — if given — a `Basis` of `d × d` elements).
+`ArgsRegular`: no sublist of `H_c`, `H_n` has more than three entries (D4). -/
 theorem parse_args_rejects_iff {x : ArgsSpec} (hr : ArgsRegular x) :
     (∃ e, parseArgs x = .error e) ↔ ¬ ValidArgs x :=
-  rejects_iff_of (fun hv => let ⟨_, _, h⟩ := parseArgs_of_valid hv hr; ⟨_, h⟩)
+  rejects_iff_of (fun hv => let ⟨_, _, h⟩ := parseArgs_of_valid hv; ⟨_, h⟩)
     (fun _ h => valid_of_parseArgs hr h)
+
+/-- Every rejected argument tuple is outside the documented domain (all inputs). -/
+theorem parse_args_rejected_invalid {x : ArgsSpec} {e : Err} (h : parseArgs x = .error e) :
+    ¬ ValidArgs x := by
+  intro hv
+  obtain ⟨_, _, h'⟩ := parseArgs_of_valid hv
+  rw [h'] at h; cases h
 
 /-- Which exception: `TypeError` for a `dt` without `__len__`; `ValueError` for complex or negative
 durations, mismatching dimensions, a basis of the wrong type or shape; the class of the
-Hamiltonian corruption otherwise. -/
+Hamiltonian corruption otherwise.  (`ArgsRegular` is used for the last three kinds only, whose
+statement refers to `ValidHam` of both Hamiltonians.) -/
 theorem parse_args_rejection_explained {x : ArgsSpec} {e : Err} (hr : ArgsRegular x)
     (h : parseArgs x = .error e) : ∃ k, ArgsViolates x k ∧ k.cls = e :=
   parseArgs_error hr h
@@ -146,16 +166,10 @@ theorem parse_args_class_of_corruption {x : ArgsSpec} {e : Err} (hr : ArgsRegula
   obtain ⟨k, hk, hc⟩ := parseArgs_error hr he'
   rw [he', ← hc, hall k hk]
 
-/-- The exception is always a `TypeError` or a `ValueError` (after the repair of D1). -/
-theorem parse_args_error_class {x : ArgsSpec} {e : Err} (hr : ArgsRegular x)
-    (h : parseArgs x = .error e) : e = .typeError ∨ e = .valueError := by
-  obtain ⟨k, hk, hc⟩ := parseArgs_error hr h
-  cases k with
-  | control k' =>
-    cases k' <;> simp [ArgsKind.cls, HamKind.cls] at hc <;> (subst hc; simp)
-  | noise k' =>
-    cases k' <;> simp [ArgsKind.cls, HamKind.cls] at hc <;> (subst hc; simp)
-  | _ => simp [ArgsKind.cls] at hc; subst hc; simp
+/-- The exception is always a `TypeError` or a `ValueError` (all inputs). -/
+theorem parse_args_error_class {x : ArgsSpec} {e : Err}
+    (h : parseArgs x = .error e) : e = .typeError ∨ e = .valueError :=
+  parseArgs_error_cases h
 
 section Examples
 
@@ -205,22 +219,35 @@ example : ArgsViolates { x0 with Hn := .list [item none [2, 2] 3] } (.noise .coe
 /-- D1 (repaired): sublists without coefficients raise `TypeError` (used to be an `IndexError`). -/
 example : parseArgs { x0 with Hc := .list [{ item none with nFields := 1 }] } = .error .typeError := by
   decide
-/-- D2: four row vectors `(1, 4)` as control operators and a `4 × 4` noise operator are accepted
-(`d = 4`), although not in the documented domain; the input is not `ArgsRegular`. -/
+/-- D2 (repaired): four row vectors `(1, 4)` as control operators (they stack to a `4 × 4` array)
+with a `4 × 4` noise operator are rejected — the stacked array does not have three axes. -/
 def xRow : ArgsSpec :=
   { dt := .seq [.nonneg],
     Hc := .list [item none [1, 4] 1, item none [1, 4] 1, item none [1, 4] 1, item none [1, 4] 1],
     Hn := .list [item none [4, 4] 1] }
-example : parseArgs xRow = .ok ⟨["A_0", "A_1", "A_2", "A_3"], ["B_0"], 4, 1⟩ ∧ ¬ ValidArgs xRow ∧
-    ¬ ArgsRegular xRow := by decide
-/-- D3: valid `1 × 1` `ndarray` operators (one control, two noise operators) are rejected. -/
+example : parseArgs xRow = .error .valueError ∧ ¬ ValidArgs xRow ∧ ArgsRegular xRow ∧
+    ArgsViolates xRow (.control .opersNotSquare) := by decide
+/-- D2 (repaired): two 1-d operators of length 2 -/
+example : parseArgs { x0 with Hc := .list [item (some "X") [2], item none [2]] } =
+    .error .valueError := by decide
+/-- D3 (repaired): `1 × 1` `ndarray` operators are squeezed to scalars, which are not matrices
+(`operDim`): consistently rejected, whatever their number. -/
 def xOne : ArgsSpec :=
   { dt := .seq [.nonneg], Hc := .list [item none [1, 1] 1],
     Hn := .list [item none [1, 1] 1, item none [1, 1] 1] }
-example : ValidArgs xOne ∧ parseArgs xOne = .error .valueError ∧ ¬ ArgsRegular xOne := by decide
-/-- D4: a fourth entry of a sublist is ignored. -/
-example : parseArgs { x0 with Hn := .list [{ item (some "Z") with nFields := 4 }] } =
-    .ok ⟨["A_1", "X"], ["Z"], 2, 2⟩ := by decide
+example : ¬ ValidArgs xOne ∧ parseArgs xOne = .error .valueError ∧ ArgsRegular xOne := by decide
+example : parseArgs { xOne with Hn := .list [item none [1, 1] 1] } = .error .valueError := by decide
+/-- a `1 × 1` Qobj (not squeezed) is a matrix of dimension one: accepted -/
+def qOne : ItemSpec := { nFields := 2, oper := .convertible [1, 1], coeff := .seq 1 }
+def xQOne : ArgsSpec := { dt := .seq [.nonneg], Hc := .list [qOne], Hn := .list [qOne] }
+example : parseArgs xQOne = .ok ⟨["A_0"], ["B_0"], 1, 1⟩ ∧ ValidArgs xQOne := by decide
+/-- an `ndarray` with additional axes of length one is the matrix it squeezes to: accepted -/
+example : parseArgs { x0 with Hn := .list [item none [2, 2, 1]] } = .ok ⟨["A_1", "X"], ["B_0"], 2, 2⟩ ∧
+    ValidArgs { x0 with Hn := .list [item none [2, 2, 1]] } := by decide
+/-- D4 (the one remaining discrepancy): a fourth entry of a sublist is ignored. -/
+def xFour : ArgsSpec := { x0 with Hn := .list [{ item (some "Z") with nFields := 4 }] }
+example : parseArgs xFour = .ok ⟨["A_1", "X"], ["Z"], 2, 2⟩ ∧ ¬ ValidArgs xFour ∧
+    ¬ ArgsRegular xFour := by decide
 
 end Examples
 
@@ -346,8 +373,10 @@ end Examples
 /-! ### `Basis.__new__` -/
 
 /-- `Basis(basis_array, labels)` raises — a `TypeError` or a `ValueError` — exactly on arguments
-outside the documented domain (`ValidBasisArg`), and accepts the others.  `BasisArgRegular`: the
-elements are `OperRegular` and there is at least one; an argument that already IS a `Basis` has a
+outside the documented domain (`ValidBasisArg`), and accepts the others.  `BasisArgRegular`: there
+is at least one element and the elements are `OperRegular` (at least two axes after squeezing —
+`Basis.__new__` calls `parse_operators` without the `ndim == 3` check that `_parse_Hamiltonian`
+now has, so two 1-d arrays of length 2 still make a "basis" of shape `(2, 2)`); an argument that already IS a `Basis` has a
 valid shape — the constructor takes such an instance over WITHOUT re-checking it (D6a: an
 overcomplete `Basis` obtained by array operations, e.g. `np.concatenate` of two bases viewed as
 `Basis`, passes). -/
@@ -444,12 +473,13 @@ theorem concat_without_ff_rejection_explained (pulses : List CPulse) (hr : Conca
   · rw [h'] at h; cases h
   · rw [h'] at h; cases h; exact ⟨k, hk, rfl⟩
 
-/-- `concatenate(pulses, calc_pulse_correlation_FF, calc_filter_function, omega)` for other than
-exactly one pulse: rejected exactly when the pulses are not `ValidConcat` or the frequencies
+/-- `concatenate(pulses, calc_pulse_correlation_FF, calc_filter_function, omega)` outside the
+single-entry shortcut (`concatShortcut`: one entry and nothing to compute): rejected exactly when the pulses are not `ValidConcat` or the frequencies
 needed cannot be inferred (`FreqOk`); `OmegaRegular`: cached frequencies that are equal as arrays
 have equal bytes (the code compares byte hashes: `[1, 2]` of dtype int vs float are "different",
 D6b). -/
-theorem concat_rejects_iff (pulses : List CPulse) (o : ConcatOpts) (hl : pulses.length ≠ 1)
+theorem concat_rejects_iff (pulses : List CPulse) (o : ConcatOpts)
+    (hl : concatShortcut pulses o = false)
     (hr : ConcatRegular pulses) (hro : OmegaRegular pulses) :
     (∃ e, concatChecks pulses o = .error e) ↔ ¬ (ValidConcat pulses ∧ FreqOk pulses o) := by
   rcases concatWithoutFF_spec pulses hr with ⟨hv, h⟩ | ⟨hv, k, _, h⟩
@@ -458,18 +488,17 @@ theorem concat_rejects_iff (pulses : List CPulse) (o : ConcatOpts) (hl : pulses.
     · exact ⟨fun _ hn => hf hn.2, fun _ => ⟨_, h'⟩⟩
   · have : concatChecks pulses o = .error k.cls := by
       unfold concatChecks
-      have hl' : (pulses.length == 1) = false := by simpa using hl
-      rw [hl', h]; rfl
+      rw [hl, h]; rfl
     exact ⟨fun _ hn => hv hn.1, fun _ => ⟨_, this⟩⟩
 
 theorem concat_valid_never_rejected (pulses : List CPulse) (o : ConcatOpts)
     (hr : ConcatRegular pulses) (hro : OmegaRegular pulses)
     (hv : ValidConcat pulses) (hf : FreqOk pulses o) : concatChecks pulses o = .ok () := by
-  by_cases hl : pulses.length = 1
-  · unfold concatChecks; simp [hl]
+  cases hl : concatShortcut pulses o
   · rcases except_cases (concatChecks pulses o) with he | ⟨⟨⟩, h⟩
     · exact absurd ⟨hv, hf⟩ ((concat_rejects_iff pulses o hl hr hro).mp he)
     · exact h
+  · unfold concatChecks; simp [hl]
 
 /-- The exception class of `concatenate`: `TypeError` exactly when an entry is not a pulse,
 `ValueError` otherwise. -/
@@ -477,16 +506,16 @@ theorem concat_error_class (pulses : List CPulse) (o : ConcatOpts) (hr : ConcatR
     (hro : OmegaRegular pulses) {e : Err} (h : concatChecks pulses o = .error e) :
     (e = .typeError ∧ ∃ p ∈ pulses, p.isPulse = false) ∨
     (e = .valueError ∧ ∀ p ∈ pulses, p.isPulse = true) := by
-  by_cases hl : pulses.length = 1
-  · unfold concatChecks at h; simp [hl] at h
+  cases hl : concatShortcut pulses o with
+  | true => unfold concatChecks at h; simp [hl] at h
+  | false =>
   rcases concatWithoutFF_spec pulses hr with ⟨hv, h'⟩ | ⟨hv, k, hk, h'⟩
   · rcases concatChecks_freq pulses o hl h' hro with ⟨_, h''⟩ | ⟨_, h''⟩
     · rw [h''] at h; cases h
     · rw [h''] at h; cases h; exact .inr ⟨rfl, hv.2.1⟩
   · have : concatChecks pulses o = .error k.cls := by
       unfold concatChecks
-      have hl' : (pulses.length == 1) = false := by simpa using hl
-      rw [hl', h']; rfl
+      rw [hl, h']; rfl
     rw [this] at h; cases h
     cases k with
     | notPulse => exact .inl ⟨rfl, hk⟩
@@ -505,9 +534,12 @@ theorem concat_error_class (pulses : List CPulse) (o : ConcatOpts) (hr : ConcatR
         rw [if_pos hany] at h'
         cases h'
 
-/-- D6c: `concatenate` of exactly one entry returns a deep copy of it WITHOUT any check — also
-when the entry is not a pulse (`concatenate([5])` returns `5`). -/
-theorem concat_single_unchecked (p : CPulse) (o : ConcatOpts) : concatChecks [p] o = .ok () := rfl
+/-- D6c: `concatenate` of exactly one entry, when nothing has to be computed, returns a deep copy
+of it WITHOUT any check — also when the entry is not a pulse (`concatenate([5])` returns `5`).
+(With a forced calculation or requested correlations a single entry goes through all checks.) -/
+theorem concat_single_unchecked (p : CPulse) (o : ConcatOpts)
+    (h : concatShortcut [p] o = true) : concatChecks [p] o = .ok () := by
+  unfold concatChecks; simp [h]
 
 /-- `concatenate_periodic(pulse, repeats)` raises a `TypeError` exactly for a non-pulse. -/
 theorem concat_periodic_rejects_iff (isPulse : Bool) (e : Err) :
